@@ -1,0 +1,54 @@
+// Copyright 2025 The JSON Schema Go Project Authors. All rights reserved.
+// Use of this source code is governed by an MIT-style
+// license that can be found in the LICENSE file.
+
+//go:build verif
+
+// This file is compiled only with the "verif" build tag. It exposes two
+// read-only views of package internals to an external verification harness.
+// It adds no behavior to the package.
+
+package jsonschema
+
+import (
+	"hash/maphash"
+	"reflect"
+)
+
+// VerifHash returns the hash that the uniqueItems implementation computes for v
+// under the given seed.
+func VerifHash(seed maphash.Seed, v any) uint64 {
+	var h maphash.Hash
+	h.SetSeed(seed)
+	hashValue(&h, reflect.ValueOf(v))
+	return h.Sum64()
+}
+
+// A VerifRef describes how one $ref or $dynamicRef was resolved.
+type VerifRef struct {
+	From    *Schema // the schema holding the reference
+	Dynamic bool    // the reference is a $dynamicRef
+	Target  *Schema // statically resolved target; nil for a $dynamicRef that acts dynamically
+	Anchor  string  // dynamic anchor name looked up at validation time, if any
+}
+
+// VerifRefs returns the resolved references of every schema known to rs,
+// together with every schema carrying a dynamic anchor (as possible targets of
+// dynamic lookups).
+func (rs *Resolved) VerifRefs() (refs []VerifRef, dynamicAnchors map[string][]*Schema) {
+	dynamicAnchors = map[string][]*Schema{}
+	for s, info := range rs.resolvedInfos {
+		if s.Ref != "" {
+			refs = append(refs, VerifRef{From: s, Target: info.resolvedRef})
+		}
+		if s.DynamicRef != "" {
+			refs = append(refs, VerifRef{From: s, Dynamic: true, Target: info.resolvedDynamicRef, Anchor: info.dynamicRefAnchor})
+		}
+		for name, ai := range info.anchors {
+			if ai.dynamic {
+				dynamicAnchors[name] = append(dynamicAnchors[name], ai.schema)
+			}
+		}
+	}
+	return refs, dynamicAnchors
+}
